@@ -11,10 +11,11 @@ import GoDebian.Drv.Changelog
 import GoDebian.Drv.Hashio
 import GoDebian.Drv.BuildOrder
 import GoDebian.Drv.Clearsign
+import GoDebian.Drv.Upload
 
 open GoDebian GoDebian.Drv
 
-def handlers : List Handler := [versionHandler, dependencyHandler, deb822Handler, codecHandler, debHandler, changelogHandler, hashioHandler, buildOrderHandler, clearsignHandler]
+def handlers : List Handler := [versionHandler, dependencyHandler, deb822Handler, codecHandler, debHandler, changelogHandler, hashioHandler, buildOrderHandler, clearsignHandler, uploadHandler]
 
 def dispatch (line : String) : String :=
   match (line.splitOn " ").filter (· ≠ "") with
